@@ -491,10 +491,65 @@ fn exec_held(n: usize, inh: bool, out: &mut CaseOut) {
     }
 }
 
+/// Two threads: A keeps the answer of `inheritance(^t0)` alive for `ms` milliseconds and then lets go of it; B
+/// meanwhile queries every other def cold.  B may have to WAIT for A (the cache insert needs the shard A's answer
+/// points into) but it must come back with the right answers once A has let go: no panic, no wrong or partial answer.
+fn exec_held2(n: usize, ms: u64, out: &mut CaseOut) {
+    out.nontrivial = true;
+    out.stat("held2");
+    let mut text = String::from("ver:\"3.0\"\ndef,is\n^marker,\n");
+    for i in 0..n {
+        text.push_str(&format!("^t{i},[^marker]\n"));
+    }
+    let grid = match libhaystack::encoding::zinc::decode::from_str(&text).ok().and_then(|v| Grid::try_from(&v).ok()) {
+        Some(g) => g,
+        None => return out.fail("harness", "defs grid".into()),
+    };
+    let ns: &'static Namespace<'static> = Box::leak(Box::new(Namespace::make(grid)));
+    let ready = Arc::new(Barrier::new(2));
+    let r2 = ready.clone();
+    let a = std::thread::spawn(move || {
+        let held = ns.inheritance(&Symbol::from("t0"));
+        r2.wait();
+        std::thread::sleep(std::time::Duration::from_millis(ms));
+        held.len()
+    });
+    let (tx, rx) = std::sync::mpsc::channel::<Result<usize, String>>();
+    std::thread::spawn(move || {
+        ready.wait();
+        let r = catch_unwind(AssertUnwindSafe(|| {
+            let mut wrong = 0usize;
+            for i in 1..n {
+                let sym = Symbol::from(format!("t{i}").as_str());
+                if ns.inheritance(&sym).len() != 2 || ns.supertypes_of(&sym).len() != 1 {
+                    wrong += 1;
+                }
+            }
+            wrong
+        }));
+        let _ = tx.send(r.map_err(|e| e.downcast_ref::<String>().cloned().or_else(|| e.downcast_ref::<&str>().map(|s| s.to_string())).unwrap_or_default()));
+    });
+    match rx.recv_timeout(std::time::Duration::from_millis(ms + 20000)) {
+        Ok(Ok(0)) => {}
+        Ok(Ok(w)) => out.fail("history_dependent", format!("{w} answers differ while another thread keeps an answer alive")),
+        Ok(Err(p)) => out.fail("panic", format!("a cold query panicked while another thread kept an answer alive for {ms} ms: {p}")),
+        Err(_) => out.fail("guard_deadlock2", format!("cold queries did not come back {} s after the other thread had let go of its answer", 20)),
+    }
+    match a.join() {
+        Ok(2) => {}
+        other => out.fail("history_dependent", format!("the kept answer has {other:?} entries, expected 2")),
+    }
+}
+
 pub fn exec(_label: &str, input: &str, out: &mut CaseOut) {
     install_hook();
     let mut rd = vx::Rd::new(input);
     let mode = rd.tok().unwrap_or("");
+    if mode == "held2" {
+        let n: usize = rd.num().unwrap_or(2000);
+        let ms: u64 = rd.num().unwrap_or(1500);
+        return exec_held2(n, ms, out);
+    }
     if mode == "held" {
         let n: usize = rd.num().unwrap_or(2000);
         let inh = rd.tok() == Some("inh");
@@ -920,6 +975,7 @@ pub fn generate(ctx: &mut Ctx) {
     let mut rng = ctx.rng.fork();
     // an earlier answer kept alive across cold queries (known finding GUARD)
     ctx.case("held:sup", "held 2000 sup");
+    ctx.case("held2", "held2 2000 1500");
     if !ctx.quick() {
         ctx.case("held:inh", "held 2000 inh");
     }
